@@ -297,6 +297,15 @@ theorem relabel_labels (n : Nat) (d : Nat → Nat) (st : Nat) (hst : 0 < st) :
         exact ⟨(dLabels n d).idxOf (d p), List.idxOf_lt_length_iff.mpr hm, hfp⟩
       · rw [rankMap_of_not_mem _ _ _ hm] at hfp; omega
 
+/-- `relabel=True` leaves labels 1..N: the array written by `reassign_labels(ls, new, relabel=True)` (the model's `newd`:
+    reassign, then rank the surviving labels from 1) has exactly the labels 1, 2, …, N -/
+theorem reassign_relabel_labels (n : Nat) (d : Nat → Nat) (ls : List Nat) (new : Nat) :
+    let g : Nat → Nat := fun l => if ls.contains l then new else l
+    dLabels n (fun p => rankMap (dLabels n (fun p => g (d p))) 1 (g (d p)))
+      = (List.range (dLabels n (fun p => g (d p))).length).map (1 + ·) := by
+  intro g
+  exact relabel_labels n (fun p => g (d p)) 1 (by omega)
+
 theorem pix_relabel (n : Nat) (d : Nat → Nat) (st : Nat) (hst : 0 < st) (i : Nat)
     (hi : i < (dLabels n d).length) :
     pix n (fun p => rankMap (dLabels n d) st (d p)) (st + i) = pix n d ((dLabels n d)[i]) := by
@@ -480,21 +489,6 @@ theorem checkLabels_ok (s : State) (h : Inv s) (ls : List Nat) :
   obtain ⟨_, hi, hf⟩ := readLabels_ok s h
   exact ⟨hi, hf⟩
 
-theorem reassign_inv (s : State) (h : Inv s) (ls : List Nat) (new : Nat) (rl : Bool) :
-    Inv (reassign s ls new rl).1 := by
-  unfold reassign
-  obtain ⟨hi1, _⟩ := checkLabels_ok s h ls
-  simp only
-  split
-  · exact hi1
-  · split
-    · exact hi1
-    · obtain ⟨_, hi2, _⟩ := readMax_ok _ hi1
-      obtain ⟨_, hi3, _⟩ := readLabels_ok _ hi2
-      split
-      · exact hi3
-      · exact commit_reassign_inv _ _ _
-
 theorem relabelConsecutive_inv (s : State) (h : Inv s) (start : Int) :
     Inv (relabelConsecutive s start).1 := by
   unfold relabelConsecutive
@@ -524,6 +518,23 @@ theorem relabelConsecutive_inv (s : State) (h : Inv s) (start : Int) :
             rw [readMax_cSlices]
           rw [e1, e2, e3]
           exact key
+
+theorem reassign_inv (s : State) (h : Inv s) (ls : List Nat) (new : Nat) (rl : Bool) :
+    Inv (reassign s ls new rl).1 := by
+  unfold reassign
+  obtain ⟨hi1, _⟩ := checkLabels_ok s h ls
+  simp only
+  split
+  · exact hi1
+  · split
+    · split
+      · exact relabelConsecutive_inv _ hi1 1
+      · exact hi1
+    · obtain ⟨_, hi2, _⟩ := readMax_ok _ hi1
+      obtain ⟨_, hi3, _⟩ := readLabels_ok _ hi2
+      split
+      · exact hi3
+      · exact commit_reassign_inv _ _ _
 
 theorem removeLabels_inv (s : State) (h : Inv s) (ls : List Nat) (rl : Bool) :
     Inv (removeLabels s ls rl).1 := by
@@ -622,25 +633,33 @@ theorem dLabels_zero (n : Nat) : dLabels n (fun _ => 0) = [] := by
 theorem readLabels_data (s : State) : (readLabels s).1.data = s.data := by
   unfold readLabels; cases s.cLabels <;> rfl
 
-/-- a zero border width removes nothing: the label array is unchanged -/
-theorem removeBorder_zero_noop (s : State) (po rl : Bool) (hs : 0 < min s.ny s.nx) :
-    (removeBorder s 0 po rl).1.data = s.data ∧ (removeBorder s 0 po rl).2 = .ok () := by
-  unfold removeBorder
-  rw [if_neg (by omega)]
-  unfold removeMasked
-  have hm : (fun p => if borderMask s.ny s.nx 0 true p = true then s.d p else 0) = fun _ => 0 := by
-    funext p; simp [borderMask]
-  rw [hm, dLabels_zero]
-  simp only
-  have hrm : (if po = true then ([] : List Nat) else
-      List.filter (fun l => !(dLabels s.n fun p => if borderMask s.ny s.nx 0 true p = true then 0 else s.d p).contains l) []) = [] := by
-    split <;> rfl
-  rw [hrm]
-  unfold removeLabels checkLabels
-  simp only [List.all_nil, Bool.not_true, Bool.false_eq_true, if_false]
-  unfold reassign checkLabels
-  simp only [List.all_nil, Bool.not_true, Bool.false_eq_true, if_false, List.isEmpty_nil, if_true]
-  exact ⟨by rw [readLabels_data, readLabels_data], trivial⟩
+/-- a zero border width removes nothing: without `relabel` the label array is unchanged; with `relabel` the call is
+    exactly `relabel_consecutive()` (no label is removed, the labels become 1..N) -/
+theorem removeBorder_zero_noop (s : State) (po : Bool) (hs : 0 < min s.ny s.nx) :
+    (removeBorder s 0 po false).1.data = s.data ∧ (removeBorder s 0 po false).2 = .ok () ∧
+    removeBorder s 0 po true = relabelConsecutive (readLabels (readLabels s).1).1 1 := by
+  have key : ∀ rl, removeBorder s 0 po rl
+      = (if rl = true then relabelConsecutive (readLabels (readLabels s).1).1 1 else ((readLabels (readLabels s).1).1, .ok ())) := by
+    intro rl
+    unfold removeBorder
+    rw [if_neg (by omega)]
+    unfold removeMasked
+    have hm : (fun p => if borderMask s.ny s.nx 0 true p = true then s.d p else 0) = fun _ => 0 := by
+      funext p; simp [borderMask]
+    rw [hm, dLabels_zero]
+    simp only
+    have hrm : (if po = true then ([] : List Nat) else
+        List.filter (fun l => !(dLabels s.n fun p => if borderMask s.ny s.nx 0 true p = true then 0 else s.d p).contains l) []) = [] := by
+      split <;> rfl
+    rw [hrm]
+    unfold removeLabels checkLabels
+    simp only [List.all_nil, Bool.not_true, Bool.false_eq_true, if_false]
+    unfold reassign checkLabels
+    simp only [List.all_nil, Bool.not_true, Bool.false_eq_true, if_false, List.isEmpty_nil, if_true]
+  refine ⟨?_, ?_, ?_⟩
+  · rw [key false]; simp only [Bool.false_eq_true, if_false]; rw [readLabels_data, readLabels_data]
+  · rw [key false]; simp
+  · rw [key true]; simp
 
 /-! ### the deblended-label map never names an absent label -/
 
@@ -701,24 +720,6 @@ theorem commit_reassign_dmapOK (s : State) (h : DmapOK s) (f : Nat → Nat) :
   rw [e1, e2, e3]
   exact dmapOK_update s.n s.d _ f s.dmap (fun p hp => getD_map_range s.n _ p hp) h
 
-theorem reassign_dmapOK (s : State) (hi : Inv s) (h : DmapOK s) (ls : List Nat) (new : Nat) (rl : Bool) :
-    DmapOK (reassign s ls new rl).1 := by
-  unfold reassign checkLabels
-  obtain ⟨_, hi1, hf1⟩ := readLabels_ok s hi
-  have h1 := dmapOK_frame s _ hf1 (readLabels_dmap s) h
-  simp only
-  split
-  · exact h1
-  · split
-    · exact h1
-    · obtain ⟨_, hi2, hf2⟩ := readMax_ok _ hi1
-      have h2 := dmapOK_frame _ _ hf2 (readMax_dmap _) h1
-      obtain ⟨_, hi3, hf3⟩ := readLabels_ok _ hi2
-      have h3 := dmapOK_frame _ _ hf3 (readLabels_dmap _) h2
-      split
-      · exact h3
-      · exact commit_reassign_dmapOK _ h3 _
-
 theorem commit_relabel_dmapOK (s : State) (h : DmapOK s) (f : Nat → Nat) (nl : List Nat) (o : Option (List Box)) :
     DmapOK (commit relabelRow s ((Array.range s.n).map fun p => f (s.d p)) f nl o) := by
   unfold DmapOK
@@ -750,6 +751,26 @@ theorem relabelConsecutive_dmapOK (s : State) (hi : Inv s) (h : DmapOK s) (start
         · obtain ⟨_, hi3, hf3⟩ := readMax_ok _ hi2
           have h3 := dmapOK_frame _ _ hf3 (readMax_dmap _) h2
           exact commit_relabel_dmapOK _ h3 _ _ _
+
+theorem reassign_dmapOK (s : State) (hi : Inv s) (h : DmapOK s) (ls : List Nat) (new : Nat) (rl : Bool) :
+    DmapOK (reassign s ls new rl).1 := by
+  unfold reassign checkLabels
+  obtain ⟨_, hi1, hf1⟩ := readLabels_ok s hi
+  have h1 := dmapOK_frame s _ hf1 (readLabels_dmap s) h
+  simp only
+  split
+  · exact h1
+  · split
+    · split
+      · exact relabelConsecutive_dmapOK _ hi1 h1 1
+      · exact h1
+    · obtain ⟨_, hi2, hf2⟩ := readMax_ok _ hi1
+      have h2 := dmapOK_frame _ _ hf2 (readMax_dmap _) h1
+      obtain ⟨_, hi3, hf3⟩ := readLabels_ok _ hi2
+      have h3 := dmapOK_frame _ _ hf3 (readLabels_dmap _) h2
+      split
+      · exact h3
+      · exact commit_reassign_dmapOK _ h3 _
 
 theorem removeLabels_dmapOK (s : State) (hi : Inv s) (h : DmapOK s) (ls : List Nat) (rl : Bool) :
     DmapOK (removeLabels s ls rl).1 := by
